@@ -170,6 +170,11 @@ func c03GenConstraints(t *rapid.T, st *c03Stanza) {
 	}
 	if rapid.IntRange(0, 9).Draw(t, "cExp") < 1 {
 		st.Expiry = rapid.IntRange(1, 2).Draw(t, "expiry")
+		if rapid.IntRange(0, 11).Draw(t, "expiresWhileCached") == 0 {
+			// a time-boxed grant that is still valid when the policy is parsed (and cached) and has lapsed when
+			// the ACL is built from the cached policy
+			st.Expiry, st.ExpiryAt = 3, time.Now().Add(20*time.Millisecond)
+		}
 	}
 	st.Comment = rapid.IntRange(0, 19).Draw(t, "cComment") == 0
 }
@@ -349,6 +354,20 @@ func c03Parse(tb verifx.TB, pols []c03Policy) []*Policy {
 		}
 		pp.Name = fmt.Sprintf("p%d", i)
 		out[i] = pp
+	}
+	// stanzas that lapse while the parsed policy is held: wait until they have
+	var latest time.Time
+	for _, p := range pols {
+		for _, st := range p.Stanzas {
+			if st.Expiry == 3 && st.ExpiryAt.After(latest) {
+				latest = st.ExpiryAt
+			}
+		}
+	}
+	if !latest.IsZero() {
+		if d := time.Until(latest) + 2*time.Millisecond; d > 0 {
+			time.Sleep(d)
+		}
 	}
 	return out
 }
